@@ -203,8 +203,13 @@ class Obligation:
         return d
 
 
+CURRENT = None  # the report under construction (lets the CLI show violations found before an analysis error)
+
+
 class Report:
     def __init__(self, pid: str):
+        global CURRENT
+        CURRENT = self
         self.pid = pid
         self.obls: List[Obligation] = []
         self.info: List[str] = []
